@@ -1,0 +1,20 @@
+//go:build verif
+
+package nodes
+
+// Contracts checked by /verif/govc (contract-based deductive verification).
+// Comment-only: with the `verif` tag off this file is not even parsed.
+
+//@ func github.com/pokt-network/pocket-core/types.TimeTrack
+//@   trusted logging of elapsed wall time only
+//@   pure_fn
+
+// a send message results in exactly one bank transfer: from the message's sender, to its
+// recipient, of exactly its amount; it succeeds exactly when the bank accepted the transfer;
+// nothing is staked, minted or burned
+//@ func handleMsgSend
+//@   props C18
+//@   modifies all
+//@   ensures [one-transfer] bankXferN == old(bankXferN) + 1 && bankXferFrom == old(bytes(msg.FromAddress)) && bankXferTo == old(bytes(msg.ToAddress)) && singleAmt(bankXferCoins) == old(bigv[msg.Amount.i])
+//@   ensures [outcome] (result.Code == 0) == bankXferOK
+//@   ensures [nothing-else] bankA2MN == old(bankA2MN) && bankSendN == old(bankSendN) && bankBurnN == old(bankBurnN) && bankMintN == old(bankMintN)
